@@ -179,3 +179,33 @@ Proof.
   destruct (negb (k =? 0)); auto. destruct (add_attributes [] it); auto. destruct (add_attributes f vals); auto.
   destruct (eval_update_stmt _ ast); eauto.
 Qed.
+
+(* ---------- C06: the precedence chain, as the parser applies it (finite sweep over the comparators) ---------- *)
+Definition comparators : list str := [bs "="; bs "<>"; bs "<"; bs "<="; bs ">"; bs ">="].
+
+Definition shown (s : str) : option (str * nat) := option_map (fun r => (show (fst r), snd r)) (parse_cond s).
+
+Definition groups_by_precedence (c1 c2 c3 : str) : bool :=
+  let sp := bs " " in
+  let e1 := bs "a" ++ sp ++ c1 ++ sp ++ bs ":x" in
+  let e2 := bs "b" ++ sp ++ c2 ++ sp ++ bs ":y" in
+  let e3 := bs "c" ++ sp ++ c3 ++ sp ++ bs ":z" in
+  let p s := bs "(" ++ s ++ bs ")" in
+  match shown (bs "NOT " ++ e1 ++ bs " AND " ++ e2 ++ bs " OR " ++ e3),
+        shown (e1 ++ bs " OR " ++ e2 ++ bs " AND NOT " ++ e3) with
+  | Some (s1, 0), Some (s2, 0) =>
+      str_eqb s1 (p (p (p (bs "NOT" ++ p e1) ++ bs " AND " ++ p e2) ++ bs " OR " ++ p e3)) &&
+      str_eqb s2 (p (p e1 ++ bs " OR " ++ p (p e2 ++ bs " AND " ++ p (bs "NOT" ++ p e3))))
+  | _, _ => false
+  end.
+
+(* for every choice of the six comparators in the three positions: a comparison binds tighter than NOT, NOT tighter
+   than AND, AND tighter than OR - read off the tree the condition parser builds *)
+Theorem precedence_grouping :
+  forall c1 c2 c3, In c1 comparators -> In c2 comparators -> In c3 comparators -> groups_by_precedence c1 c2 c3 = true.
+Proof.
+  assert (forallb (fun c1 => forallb (fun c2 => forallb (fun c3 => groups_by_precedence c1 c2 c3) comparators) comparators) comparators = true) as H
+    by (vm_compute; reflexivity).
+  intros c1 c2 c3 H1 H2 H3. rewrite forallb_forall in H. specialize (H c1 H1). rewrite forallb_forall in H.
+  specialize (H c2 H2). rewrite forallb_forall in H. exact (H c3 H3).
+Qed.
